@@ -12,17 +12,22 @@ Updating a template changes all tasks created from it or none of them.
 What is PROVED here, for all states / requests / oracles (no size bound):
   * a request answered 400/404 leaves NO trace — tasks, templates, associations, executing set (all seven handlers);
   * the outcome of every start attempt is the oracle's (`startOK`), and a start touches nothing but that task's flag;
-  * a (re)start of the process on ANY consistent file changes nothing stored and executes exactly the enabled tasks
-    whose start succeeds; the running-state invariant (executing ⇒ stored ∧ enabled) holds afterwards;
-  * delete keeps that invariant and, given it, leaves the ID neither stored nor executing (the Go code stops the task
-    only when it is stored as enabled — without the invariant a deleted task would keep running).
+  * the running-state invariant (executing ⇒ stored ∧ enabled) is preserved by EVERY handler (create, update incl.
+    rename / template change, delete, template create / update with its rollback loop / delete, restart), for every
+    revision of the code, every oracle and every crash point — hence after every history;
+  * a (re)start of the process on ANY file whose tasks are enumerated changes nothing stored and executes exactly the
+    enabled tasks whose start succeeds;
+  * along every deviation-free history of create / delete / template create / template delete / restart requests the
+    model's view IS the catalogue spec (accepted ⇒ declared effect, rejected ⇒ nothing, executing ⇔ enabled ∧ started);
+  * an accepted template update re-synchronises exactly the tasks created from the template (all), one rejected by
+    validation none: all-or-none for every answer other than 500.
 What is proved by counterexample (`decide` on the model, replayed on the real code by corpus/C14/*.ops): the two
-repaired defects on the snapshot order, and the four recorded findings on today's code.
-What is only STATED (`…_stmt`, tied by the correspondence run and the spec oracle only): the refinement of the
-catalogue spec over whole deviation-free histories, the invariant over all handlers, all-or-none for accepted /
-rolled-back template updates.
+repaired defects on the snapshot order, and the four recorded findings on today's code (incl. the 500 case of
+all-or-none).
+What is only STATED (`…_stmt`, tied by the correspondence run and the spec oracle only): the whole-history
+refinement with task update and template update requests in the history (ingredients proved, see the statement).
 -/
-import Kap.Proofs.C14Tmpl
+import Kap.Proofs.C14Ref
 namespace Kap.Props.C14
 open Kap.C14
 
@@ -105,6 +110,52 @@ theorem delete_removes_and_stops (w : World) (id : String) (h : ExecInv w) :
       simp only [view_tasks] at this
       rw [this]; simp [View.del]
   exact ⟨hnone, View.EI.not_exec hinv hnone⟩
+
+/-! ### The API shows the last accepted definitions; executing ⇔ enabled ∧ started -/
+
+/-- **Refinement along whole histories** (`api_shows_last_accepted` + `executing_iff_enabled_and_started`): run the
+model and the catalogue spec in lockstep over ANY history of create / delete / template create / template delete /
+restart requests — accepted or rejected, any oracle — in which no recorded deviation occurs (`AllOK`: no crash
+point, no refused start of a created task, no delete of a template that tasks were created from). Then after every
+step the model's view IS the spec catalogue: the tasks shown are exactly the accepted definitions (an accepted
+request has its declared effect, a rejected one none), the templates likewise, a task is executing iff it is enabled
+and its most recent start attempt succeeded, the association table is accurate, the ID index enumerates the tasks.
+By induction over the history from per-handler refinement lemmas. Task update and template update requests are NOT
+covered here (`covered`): for them see `executing_implies_enabled`, `rejected_request_leaves_no_trace`,
+`template_update_accepted_changes_all`; the statement including them is `api_shows_last_accepted_stmt`. -/
+theorem api_shows_last_accepted_partial (env : Env) (reqs : List Req) (hok : AllOK env reqs ({}, {})) :
+    RInv (runBoth env reqs ({}, {})).1 (runBoth env reqs ({}, {})).2 :=
+  refine_history env reqs {} {} RInv.init hok
+
+/-- One step, from any state satisfying the invariant (the induction step of the theorem above). -/
+theorem api_shows_last_accepted_step (env : Env) (w : World) (c : Cat) (r : Req) (h : RInv w c)
+    (hs : StepOK env c r (step Variant.fixed env r.fail r.cut w r.op).2) :
+    RInv (step Variant.fixed env r.fail r.cut w r.op).1
+      (specStep env r.fail c r.op (step Variant.fixed env r.fail r.cut w r.op).2) :=
+  refine_step env w c r h hs
+
+/-- The same statement with task update and template update requests allowed in the history (clause `cov` dropped,
+template updates answered 500 excluded) — NOT proved. Proved ingredients for the two missing handlers: the resolution
+and validation of an update yield exactly the spec's `updateDef` (`updateScript_some`, `updateRecord_eq_def`), the
+closed forms of its sub-steps (`storeDefinition_view`, `restartRenamed_view`, `applyStatus_view`), the association
+invariant through an update (`AssocInv.update`), the task effect of an accepted template update
+(`template_update_accepted_changes_all`); missing: the executing-set case analysis of update and the association /
+executing-set effect of the template update loop. -/
+def api_shows_last_accepted_stmt : Prop :=
+  ∀ (env : Env) (w : World) (c : Cat) (r : Req), RInv w c →
+    r.cut = none →
+    devStartFail env r.fail c r.op (step Variant.fixed env r.fail r.cut w r.op).2 = false →
+    (∀ id, r.op = .tdelete id → ∀ i t, c.tasks i = some t → t.tmpl ≠ id) →
+    (∀ id n s, r.op = .tupdate id n s → id ≠ "" ∧ (step Variant.fixed env r.fail r.cut w r.op).2 ≠ .fail) →
+    RInv (step Variant.fixed env r.fail r.cut w r.op).1
+      (specStep env r.fail c r.op (step Variant.fixed env r.fail r.cut w r.op).2)
+
+/-- Rejected requests at full strength (answers 500 included) — FALSE of today's code
+(`start_failure_leaves_enabled_not_executing`, `rollback_keeps_new_dbrps_and_template`); proved for 400/404 as
+`rejected_request_leaves_no_trace`. -/
+def rejected_request_leaves_catalogue_stmt : Prop :=
+  ∀ (env : Env) (fail : List String) (w : World) (op : Op),
+    (handle Variant.fixed env fail w op).2 ≠ .ok → (handle Variant.fixed env fail w op).1.view = w.view
 
 /-! ### Template update: all or none -/
 
@@ -244,6 +295,24 @@ theorem template_delete_orphans_tasks :
 /-- A rejected request with a non-trivial state: the hypothesis of `rejected_request_leaves_no_trace` is met. -/
 example : (handle Variant.fixed demoEnv [] (run Variant.fixed demoEnv (hijack.take 1))
     (.create "a" { tmpl := "T", dbrps := ["db.rp"], vars := "v3" })).2 = .bad := by decide
+
+/-- `AllOK` is met by a non-trivial history (accepted and rejected requests, an enabled task, a restart), and the
+theorem then gives the catalogue one expects. -/
+def lifecycle : List Req :=
+  [ ⟨.tcreate "T" "t0", [], none⟩,
+    ⟨.create "a" { tmpl := "T", dbrps := ["db.rp"], status := some true }, [], none⟩,
+    ⟨.create "a" { script := "s0", dbrps := ["db.rp"] }, [], none⟩,     -- rejected: the ID exists
+    ⟨.restart, [], none⟩,
+    ⟨.delete "a", [], none⟩ ]
+
+example : AllOK demoEnv lifecycle ({}, {}) := by
+  refine ⟨⟨rfl, by decide, (fun id h => by cases h), rfl⟩, ⟨rfl, by decide, (fun id h => by cases h), rfl⟩,
+    ⟨rfl, by decide, (fun id h => by cases h), rfl⟩, ⟨rfl, by decide, (fun id h => by cases h), rfl⟩,
+    ⟨rfl, by decide, (fun id h => by cases h), rfl⟩, trivial⟩
+
+example : ((runBoth demoEnv (lifecycle.take 4) ({}, {})).2.tasks "a").map (·.script) = some "t0" ∧
+    (runBoth demoEnv (lifecycle.take 4) ({}, {})).2.executing "a" = true ∧
+    (runBoth demoEnv lifecycle ({}, {})).2.tasks "a" = none := by decide
 
 /-- The hypotheses of the restart / delete theorems are met by a reachable, non-empty state, and a restart there
 runs exactly the enabled task. -/
